@@ -228,9 +228,10 @@ func (e *Engine) arrayOp(n *Node, op *Op) error {
 			}
 			n.Elems = append(n.Elems, m)
 			e.adopt(n, m)
-			if err := e.bulkTick(i, op.N); err != nil {
+			if err := e.bulkTick(n, i, op.N); err != nil {
 				return err
 			}
+			a = n.HA // the oracles may have replaced the handle (R1)
 		}
 		e.rec("appN %d ok", op.N)
 		return nil
@@ -319,9 +320,10 @@ func (e *Engine) arrayOp(n *Node, op *Op) error {
 				return e.viol("bulk append %d/%d failed: %v", i, total, err)
 			}
 			n.Elems = append(n.Elems, m)
-			if err := e.bulkTick(i, total); err != nil {
+			if err := e.bulkTick(n, i, total); err != nil {
 				return err
 			}
+			a = n.HA // the oracles may have replaced the handle (R1)
 		}
 		e.Stats.label("grow")
 		return nil
@@ -385,9 +387,10 @@ func (e *Engine) arrayOp(n *Node, op *Op) error {
 			if err := e.handBack(old, prev, false, fmt.Sprintf("Set(%d) previous element", idx)); err != nil {
 				return err
 			}
-			if err := e.bulkTick(i, op.N); err != nil {
+			if err := e.bulkTick(n, i, op.N); err != nil {
 				return err
 			}
+			a = n.HA // the oracles may have replaced the handle (R1)
 		}
 		e.Stats.label("bulk_overwrite")
 		return nil
@@ -410,9 +413,10 @@ func (e *Engine) arrayOp(n *Node, op *Op) error {
 			if err := e.handBack(old, prev, false, fmt.Sprintf("Remove(%d) element", idx)); err != nil {
 				return err
 			}
-			if err := e.bulkTick(i, op.N); err != nil {
+			if err := e.bulkTick(n, i, op.N); err != nil {
 				return err
 			}
+			a = n.HA // the oracles may have replaced the handle (R1)
 		}
 		e.Stats.label("remove")
 		e.Stats.label("bulk_remove")
@@ -450,9 +454,10 @@ func (e *Engine) arrayOp(n *Node, op *Op) error {
 			if err := e.handBack(old, prev, false, fmt.Sprintf("Remove(%d) element", idx)); err != nil {
 				return err
 			}
-			if err := e.bulkTick(i, total); err != nil {
+			if err := e.bulkTick(n, i, total); err != nil {
 				return err
 			}
+			a = n.HA // the oracles may have replaced the handle (R1)
 		}
 		e.Stats.label("remove")
 		e.Stats.label("bulk_remove")
@@ -654,9 +659,10 @@ func (e *Engine) mapOp(n *Node, op *Op) error {
 			if err := e.mapSet(n, km, vd, false); err != nil {
 				return err
 			}
-			if err := e.bulkTick(i, op.N); err != nil {
+			if err := e.bulkTick(n, i, op.N); err != nil {
 				return err
 			}
+			m = n.HM // the oracles may have replaced the handle (R1)
 		}
 		return nil
 
@@ -755,9 +761,10 @@ func (e *Engine) mapOp(n *Node, op *Op) error {
 			if err := e.mapSet(n, km, vd, false); err != nil {
 				return err
 			}
-			if err := e.bulkTick(i, total); err != nil {
+			if err := e.bulkTick(n, i, total); err != nil {
 				return err
 			}
+			m = n.HM // the oracles may have replaced the handle (R1)
 		}
 		e.Stats.label("grow")
 		return nil
@@ -822,9 +829,10 @@ func (e *Engine) mapOp(n *Node, op *Op) error {
 			if err := e.mapSet(n, n.Ents[ck].K, vd, false); err != nil {
 				return err
 			}
-			if err := e.bulkTick(i, op.N); err != nil {
+			if err := e.bulkTick(n, i, op.N); err != nil {
 				return err
 			}
+			m = n.HM // the oracles may have replaced the handle (R1)
 		}
 		e.Stats.label("bulk_overwrite")
 		return nil
@@ -838,9 +846,10 @@ func (e *Engine) mapOp(n *Node, op *Op) error {
 			if err := e.mapRemove(n, ck, false); err != nil {
 				return err
 			}
-			if err := e.bulkTick(i, op.N); err != nil {
+			if err := e.bulkTick(n, i, op.N); err != nil {
 				return err
 			}
+			m = n.HM // the oracles may have replaced the handle (R1)
 		}
 		e.Stats.label("bulk_remove")
 		return nil
@@ -876,9 +885,10 @@ func (e *Engine) mapOp(n *Node, op *Op) error {
 			if err := e.mapRemove(n, ck, false); err != nil {
 				return err
 			}
-			if err := e.bulkTick(i, total); err != nil {
+			if err := e.bulkTick(n, i, total); err != nil {
 				return err
 			}
+			m = n.HM // the oracles may have replaced the handle (R1)
 		}
 		e.Stats.label("bulk_remove")
 		e.Stats.label("shrink")
@@ -1389,10 +1399,17 @@ func (e *Engine) rejectedOp(op *Op) error {
 
 // bulkTick runs the whole-state structural oracles inside a bulk operation (after its i-th primitive step of total):
 // after every step on small states, less often on large ones so that a burst costs about 60 000 element visits.
-func (e *Engine) bulkTick(i, total int) error {
+func (e *Engine) bulkTick(n *Node, i, total int) error {
 	if e.quiet {
 		return nil
 	}
+	// the oracles read through designated handles and may retire / replace handles on the way (R1); the operation
+	// that is running continues through the designated handle of its target afterwards
+	defer func() {
+		if !n.HasHandle() {
+			_ = e.acquire(n)
+		}
+	}()
 	every := 1 + total*e.modelSize()/60_000
 	if m := (total + 47) / 48; every < m {
 		every = m // at most 48 whole-state checks per bulk operation
